@@ -134,7 +134,7 @@ func spec_decoded(path string, k int, v any) bool {
 //@   loop 1: invariant forall i int :: { mb.messages[i] } 0 <= i && i < len(mb.messages) ==> vcFresh(mb.messages[i])
 //@   loop 1: invariant[matchA] spec_entriesMatchA(mb)
 //@   loop 1: invariant[matchB] spec_entriesMatchB(mb)
-//@   serves C10 C07 C09
+//@   serves C10 C07 C09 C11
 
 // Source (C02): a reader over exactly the content of the message's raw file.
 //@ func (*Message).Source
